@@ -192,7 +192,9 @@ func runC19Stream(c *mon.Ctx, r *rand.Rand, s *c19Seq) {
 		}
 	}
 	c.Distinct(fmt.Sprintf("stream/%s/%s/%s/n%d", key, s.Chunk, s.BufMode, min(len(s.Writes), 8)/3))
-	c.Sample("stream-"+s.Profile, s)
+	if s.Profile != "sweep-every-length" {
+		c.Sample("stream-"+s.Profile, s)
+	}
 }
 
 // ---- arm hello: real client Handshake against the harness server -----------
@@ -443,7 +445,7 @@ func runC19Stack(c *mon.Ctx, r *rand.Rand, idx int) {
 
 func runC19(c *mon.Ctx) {
 	c.Rule("arm stream: one real FakeTLS writes a sequence of 1..20 buffers (lengths from {0,1,2,16383..16385,32768,65534..65537,131071..131073}, random<=5000, <=200000, <=1 MiB quick / 4 MiB thorough; " +
-		"odd sequences contain at least one write >65535, even ones none) into the harness wire; an independent record parser walks exactly the bytes each Write emitted (whole records, valid type/version, application bodies == the buffer), " +
+		"odd sequences contain at least one write >65535, even ones none; plus every length 0..2100 once) into the harness wire; an independent record parser walks exactly the bytes each Write emitted (whole records, valid type/version, application bodies == the buffer), " +
 		"a second real FakeTLS reads the wire back through the chunking pipe (1-byte, record-boundary+-1, random, full, mixed) with random buffer sizes and must return the concatenation. " +
 		"arm hello: real FakeTLS.Handshake against a harness server (ServerHello+[extra handshake records]+ChangeCipherSpec+application record, digest HMAC-SHA256(secret, client_random||response with zeroed random)): " +
 		"correct (0..15 extra records) must be accepted and followed by an in-step exchange; wrong secret (other, 1 bit, truncated, empty), wrong client random (other, 1 bit anywhere, 1 bit in the timestamp tail, zero, omitted, appended, used as key), " +
@@ -456,6 +458,19 @@ func runC19(c *mon.Ctx) {
 	for i := 0; i < nSeq; i++ {
 		r := c.RandN("c19-stream", i)
 		s := genC19Seq(c, r, i)
+		if pv, stack := mon.Try(func() { runC19Stream(c, r, s) }); pv != nil {
+			c.Violate("panic|stream|maxwrite-"+lenClass(s.MaxWrite), map[string]any{"case": s, "panic": fmt.Sprint(pv), "stack": stack})
+		}
+	}
+	// every write length 0..2100 once (small-record fast paths, header-sized buffers), 300 writes per sequence
+	for base, k := 0, 0; base <= 2100; base, k = base+300, k+1 {
+		r := c.RandN("c19-sweep", k)
+		s := &c19Seq{Idx: 100000 + k, Arm: "stream", Profile: "sweep-every-length", Chunk: chunkPolicies[k%len(chunkPolicies)], BufMode: bufModes[k%len(bufModes)]}
+		for l := base; l < base+300 && l <= 2100; l++ {
+			s.Writes = append(s.Writes, l)
+			s.Total += l
+			s.MaxWrite = l
+		}
 		if pv, stack := mon.Try(func() { runC19Stream(c, r, s) }); pv != nil {
 			c.Violate("panic|stream|maxwrite-"+lenClass(s.MaxWrite), map[string]any{"case": s, "panic": fmt.Sprint(pv), "stack": stack})
 		}
